@@ -148,30 +148,17 @@ impl Driver {
     }
 
     fn folder_ids(&self) -> Vec<VaultId> {
-        self.model.view.folders.keys().copied().collect()
+        self.model.folder_ids_sorted()
     }
     fn user_folders(&self) -> Vec<VaultId> {
         // folders without special flags (created by the harness)
-        self.model
-            .view
-            .folders
-            .iter()
-            .filter(|(_, f)| f.flags & 0xff == 0)
-            .map(|(id, _)| *id)
-            .collect()
+        self.model.folder_ids_sorted().into_iter().filter(|id| self.model.view.folders[id].flags & 0xff == 0).collect()
     }
     fn archive_folder(&self) -> Option<VaultId> {
         self.model.view.folders.iter().find(|(_, f)| f.flags & VaultFlags::ARCHIVE.bits() != 0).map(|(id, _)| *id)
     }
     fn pick_folder_with_room(&mut self) -> Option<VaultId> {
-        let ids: Vec<VaultId> = self
-            .model
-            .view
-            .folders
-            .iter()
-            .filter(|(_, f)| f.secrets.len() < self.max_secrets_per_folder)
-            .map(|(id, _)| *id)
-            .collect();
+        let ids: Vec<VaultId> = self.model.folder_ids_sorted().into_iter().filter(|id| self.model.view.folders[id].secrets.len() < self.max_secrets_per_folder).collect();
         if ids.is_empty() { None } else { Some(*self.rng.pick(&ids)) }
     }
     fn pick_live(&mut self) -> Option<(VaultId, SecretId)> {
@@ -313,14 +300,7 @@ impl Driver {
 
     async fn op_move(&mut self, account: &mut LocalAccount) -> Option<StepOutcome> {
         let (f, id) = self.pick_live()?;
-        let others: Vec<VaultId> = self
-            .model
-            .view
-            .folders
-            .iter()
-            .filter(|(g, fm)| **g != f && fm.secrets.len() < self.max_secrets_per_folder + 2)
-            .map(|(g, _)| *g)
-            .collect();
+        let others: Vec<VaultId> = self.model.folder_ids_sorted().into_iter().filter(|g| *g != f && self.model.view.folders[g].secrets.len() < self.max_secrets_per_folder + 2).collect();
         if others.is_empty() {
             return None;
         }
